@@ -31,7 +31,15 @@ PROPS["C07"] = {
             "2 block, 2 block-1, 3 block+1, random to 4 blocks} x {one call, 2..5 calls with random cuts incl. empty frames}, plus inputs of "
             "20000..100000 samples (6 quick / 36 thorough); xcorr: ALL (n1,n2) in 1..16 (quick) / 1..48 (thorough), real and complex, autocorrelation "
             "entry points, plus 10/60 sampled pairs to 5000; MAFilter n in {1,2,3,4,5,7,8,16,33,100,128,1000} (+40 random to 1024), scalar and array API, "
-            "inputs to 100000. Oracle = long-double defining sum at every output (a boundary-centred sample of >= 400 outputs when nh*len > 3e6). "
+            "inputs to 100000. Strengthening classes (round 2): coefficient kinds `tiny-tail` (one or two O(1) taps, all others NON-ZERO at 1e-16..1e-25) and "
+            "`special-values` (+-0, denormals, 2^-1022, exact powers of two), input kinds `zero-runs` (bursts separated by runs of +0/-0 longer than 2 nh / "
+            "block+nh / 2 n) and `special-values`; absolute SCALE classes {1e-300, 1e-17, 2^-60, 1e-8, 1, 1e8, 2^60, 1e100} for the coefficient vector x the input "
+            "(every pair whose product stays in range; FirFilter, FftFilter, xcorr operands, MAFilter input; quick 1 pass, thorough 6) with a purely RELATIVE "
+            "oracle (additive slack = a few denormal quanta, no 1e-300 floor); object lifetime: FirFilter / FftFilter / MAFilter banks std::vector<P>(3, proto) "
+            "+ the prototype, copies made mid-stream by construction / assignment over a live filter / by value + move, a destroyed copy, self-assignment, "
+            "temporaries -- every object bit-identical to a separately constructed one on (copied history ++ own stream) and within the defining-sum bound "
+            "(12 / 120 scenarios x 6 classes, a quarter at non-unit scale); frames of 20000, 70000, 140000 samples after shorter ones (thorough: 2^14..2^17 (+1), "
+            "k*49152, decreasing). Oracle = long-double defining sum at every output (a boundary-centred sample of >= 400 outputs when nh*len > 3e6). "
             "distinct = distinct protocol lines; non-trivial = all",
     "technique": "Lean 4 proof over hand-written state-explicit models (generic in the scalar; run at Float by the driver, reasoned about in any "
                  "commutative semiring / at R / at Cx R) + differential correspondence on the real library + long-double convolution-sum oracle",
